@@ -4,10 +4,13 @@
   Theorems are about the COST MODEL of each decoder (Model/Cost*.lean); the parameters a one-line
   Rust edit can flip (nesting limit, nesting check, capacity rule) are the values extracted from the
   Rust source on every run (Generated/CostAbi.lean), so such an edit breaks a proof here.
+  The ABI cost model's result class is PROVED equal to the functional decoder of C12
+  (Model/Codec/Cbor.lean), `abi_cost_class_is_decoder_class`: one classification, two views.
   What is NOT proved (runtime): bytes per stack frame, allocator behaviour, abort — those are
   observed by the isolated-child correspondence run.
 -/
 import EchoVerif.Lemmas.CostCbor
+import EchoVerif.Lemmas.CostCborTie
 import EchoVerif.Generated.CostAbi
 import EchoVerif.Lemmas.CostEdict
 import EchoVerif.Generated.CostEdict
@@ -73,6 +76,34 @@ theorem abi_terminates (bs : Bytes) : (decode Generated.abiCostParams bs).2 ≠ 
   unfold decode
   split <;> rename_i heq <;> rw [heq] at h <;> simp at h ⊢
   exact h
+
+/-- `abi_cost_class_is_decoder_class`: for EVERY byte string the cost model of the decoder as
+    extracted (nesting check present, limit = the limit C12's model extracts) and the functional
+    model `Cbor.decode` of property C12 compute the same result class: both accept or both reject,
+    and the cost model's typed error (`cls`) is the functional model's `CanonError` class. Every
+    C12 theorem about accepted inputs (canonical form, round trip, nesting ≤ limit) therefore
+    speaks about exactly the inputs this cost model accepts. Breaks if the two extractors disagree
+    on the limit or if either model's classification is edited alone. -/
+theorem abi_cost_class_is_decoder_class (bs : Bytes) :
+    mapE (decode Generated.abiCostParams bs).2 = unitOf (Cbor.decode bs) :=
+  decode_tie Generated.abiCostParams rfl rfl bs
+
+/-- accepted by the cost model ⇔ accepted by the functional decoder -/
+theorem abi_cost_accepts_iff (bs : Bytes) :
+    (decode Generated.abiCostParams bs).2 = .ok () ↔ ∃ v, Cbor.decode bs = .ok v := by
+  have h := abi_cost_class_is_decoder_class bs
+  constructor
+  · intro hok
+    rw [hok] at h
+    cases hd : Cbor.decode bs with
+    | ok v => exact ⟨v, rfl⟩
+    | error e => rw [hd] at h; simp [mapE, unitOf] at h
+  · rintro ⟨v, hv⟩
+    rw [hv] at h
+    exact mapE_ok h
+
+example : (decode Generated.abiCostParams [0x82, 0x01, 0xf9, 0x3e, 0x00]).2 = .ok () := by rfl
+example : (decode Generated.abiCostParams [0xf9, 0x7e, 0x01]).2 = .error .nonCanonFloat := by rfl
 
 /-- The measured proportionality bucket follows: 64·alloc + copied ≤ 256·len + 64 KiB. -/
 theorem abi_alloc_bucket (bs : Bytes) :
